@@ -180,7 +180,6 @@ def run(ctx):
     # R19.3 is retired in favour of R19.18, which interprets __Flow; R19.4 is decided by interpretation below.)
     ctx.attempt(elastic_degeneration_rule, ctx)
     condensation_rule(ctx, beh)
-    evaluation_point_rule(ctx, beh)
     derivative_rules(ctx)
     convergence_test_rule(ctx)
 
@@ -224,79 +223,9 @@ def condensation_rule(ctx, beh):
         r.ok("__Condense == Schur complement of (zz, zz), row and column kept distinct")
 
 
-def evaluation_point_rule(ctx, beh):
-    """R19.6: in the local residual and Jacobian the hardening laws are evaluated at the updated state value
-    zOld + du (never at the bare increment), and both functions evaluate them at the same expression."""
-    from ..flow import Locals
-
-    repo = ctx.repo
-    r = ctx.rule("R19.6", "evaluation point: every state value handed to the hardening / back-stress / stress functions in __Residual and __Jacobian is a slot of (committed state + increment); R and dR are evaluated at the same point", min_instances=3)
-    texts = {}
-    for nm in ("__Residual", "__Jacobian"):
-        f = beh.methods.get(nm)
-        if f is None:
-            raise AnalysisError(f"Behavior.{nm} not found")
-        loc = Locals(f.node)
-        params = [p for p in f.params() if p != "self"]
-
-        def is_state_sum(e):
-            # <param> + <param>[..., :n]   (either order)
-            if not (isinstance(e, ast.BinOp) and isinstance(e.op, ast.Add)):
-                return False
-            a, b = e.left, e.right
-            for x, y in ((a, b), (b, a)):
-                if isinstance(x, ast.Name) and x.id in params and isinstance(y, ast.Subscript) and isinstance(y.value, ast.Name) and y.value.id in params and y.value.id != x.id:
-                    return True
-            return False
-
-        def base_of(e):
-            while isinstance(e, ast.Subscript):
-                e = e.value
-            return e
-
-        for n in walk_no_nested(f.node):
-            if not (isinstance(n, ast.Call) and isinstance(n.func, ast.Attribute) and n.args):
-                continue
-            tgt = norm_text(n.func.value)
-            meth = n.func.attr
-            is_hard = "hardening" in tgt and meth in ("R", "dR")
-            is_state_fn = tgt == "self" and meth in ("Compute_back_stress", "Compute_sigma", "Compute_elastic_strain")
-            if not (is_hard or is_state_fn):
-                continue
-            arg = n.args[-1] if is_state_fn else n.args[0]
-            ex = loc.expand(arg)
-            r.instance(fn=f.qualname)
-            if is_state_sum(base_of(ex)):
-                r.ok(f"{nm}: {tgt}.{meth}(...) evaluated at a slot of zOld + du")
-                if is_hard:
-                    texts[(nm, meth)] = norm_text(ex)
-            else:
-                r.fail(f.qualname, f"point:{meth}", f.file, n.lineno, nm, f"`{norm_text(n)[:70]}` is evaluated at `{norm_text(ex)[:90]}`, which is not a slot of (committed state + increment): the law sees the increment (or the old state) instead of the updated value, so accumulated hardening is lost / the return lands off the current surface")
-    if ("__Residual", "R") in texts and ("__Jacobian", "dR") in texts:
-        fr, fj = beh.methods["__Residual"], beh.methods["__Jacobian"]
-        # compare after mapping each function's parameter names to its position-independent role (the caller's argument text)
-        r.instance(fn=fj.qualname)
-
-        def canon(fn, text):
-            ps = [p for p in fn.params() if p != "self"]
-            calls = [n for m in beh.methods.values() if m.cls is beh for n in ast.walk(m.node) if isinstance(n, ast.Call) and isinstance(n.func, ast.Attribute) and n.func.attr in (fn.node.name, "_Behavior" + fn.node.name)]
-            if not calls:
-                return None
-            c = calls[0]
-            t = ast.parse(text, mode="eval").body
-            m = {p: a for p, a in zip(ps, c.args)}
-
-            class S(ast.NodeTransformer):
-                def visit_Name(self, node):
-                    return m.get(node.id, node)
-
-            return norm_text(S().visit(t))
-
-        a, b = canon(fr, texts[("__Residual", "R")]), canon(fj, texts[("__Jacobian", "dR")])
-        if a is None or b is None or a == b:
-            r.ok("R (residual) and dR (Jacobian) are evaluated at the same state value")
-        else:
-            r.fail(fj.qualname, "point:R-vs-dR", fj.file, fj.lineno, "__Jacobian", f"the residual evaluates the hardening force at `{a[:80]}` but the Jacobian differentiates it at `{b[:80]}`: the local Newton matrix is not the derivative of the residual")
+# (the former evaluation_point_rule, R19.6, traced the ARGUMENT TEXT of hardening.R / dR back to `zOld + du[..., :n]`; it would fire
+# on `np.add(zOld, du[..., :n])`.  The evaluation point is now recorded while __Residual / __Jacobian are interpreted: see
+# local_jacobian_rule.)
 
 
 # ---------------------------------------------------------------------------
@@ -1181,7 +1110,13 @@ def local_jacobian_rule(ctx, rid="R19.22"):
         dNdSig=lambda xi: XFe((1, 1, 6, 6), [Poly.const(Pm[i][j]) for i in range(6) for j in range(6)]),
         f=lambda xi, R: XFe((1, 1), [sum((Poly.of(a) * b for a, b in zip(XArray.from_nested(xi).data, matvec(Pm, [Poly.of(x) for x in XArray.from_nested(xi).data]))), Poly()) * Q(1, 2) - Poly.of(XArray.from_nested(R).data[0]) - sy]),
         scale=1, P=None)
-    hard = SimpleNamespace(R=lambda p: XFe((1, 1), [H * Poly.of(XArray.from_nested(p).data[0])]), dR=lambda p: XFe((1, 1), [H]))
+    seen_pts = {}
+
+    def _rec(tag, p):
+        seen_pts.setdefault(tag, []).append(Poly.of(XArray.from_nested(p).data[0]))
+
+    hard = SimpleNamespace(R=lambda p: (_rec("R", p), XFe((1, 1), [H * Poly.of(XArray.from_nested(p).data[0])]))[1], dR=lambda p: (_rec("dR", p), XFe((1, 1), [H]))[1])
+    r6 = ctx.rule("R19.6", "evaluation point (interpreted): in __Residual and in __Jacobian the isotropic hardening R / dR is evaluated at the UPDATED accumulated plastic strain p_old + dp - both at the same point", min_instances=3)
 
     def config(kin, br):
         table, n = {"eps_p": slice(0, 6), "p": slice(6, 7)}, 7
@@ -1195,6 +1130,7 @@ def local_jacobian_rule(ctx, rid="R19.22"):
 
     for label, kin, br in (("plasticity + kinematic hardening + Maxwell branch", True, True), ("plasticity + kinematic hardening", True, False), ("plasticity + Maxwell branch", False, True)):
         r.instance(fn=fJ.qualname)
+        seen_pts.clear()
         table, nz = config(kin, br)
         nu = nz + 1
         eps = [Poly.var(f"e{i}") for i in range(6)]
@@ -1216,6 +1152,19 @@ def local_jacobian_rule(ctx, rid="R19.22"):
         except XRaise as e:
             r.fail(fJ.qualname, f"jacobian:{label}", fJ.file, fJ.lineno, "Behavior.__Jacobian", f"{label}: raises {e}")
             continue
+        # R19.6: where the hardening law was evaluated
+        r6.instance(fn=fR.qualname)
+        want_pt = zold[6] + u[6]
+        pts_R, pts_dR = seen_pts.get("R", []), seen_pts.get("dR", [])
+        if not pts_R or not pts_dR:
+            r6.fail(fR.qualname, f"point:{label}", fR.file, fR.lineno, "__Residual", f"{label}: the hardening law is not evaluated (R: {len(pts_R)} call(s), dR: {len(pts_dR)} call(s))")
+        elif any(not is_zero(pt - want_pt) for pt in pts_R + pts_dR):
+            inR = any(not is_zero(pt - want_pt) for pt in pts_R)
+            wrong = next(pt for pt in (pts_R if inR else pts_dR) if not is_zero(pt - want_pt))
+            fn_ = fR if inR else fJ
+            r6.fail(fn_.qualname, "point:R" if inR else "point:dR", fn_.file, fn_.lineno, "__Residual" if inR else "__Jacobian", f"{label}: the hardening {'R' if inR else 'dR'} is evaluated at {wrong!r}, the updated accumulated plastic strain is p_old + dp = {want_pt!r}: the law sees the increment (or the old state) instead of the updated value - accumulated hardening is lost / the return lands off the current surface")
+        else:
+            r6.ok(f"{label}: R and dR evaluated at p_old + dp")
         names = {}
         for nm, sl in table.items():
             for kk in range(sl.start, sl.stop):
